@@ -1,11 +1,7 @@
 """C07 - totality: any text and any valid option set gives a result or SQLParseError."""
-from props import composite, C07_total, C07_opt
+from props import composite, C07_total, C07_opt, C07_out
 
-PARTS = [('total', C07_total), ('opt', C07_opt)]
-try:
-    from props import acc_common as _acc          # accessor correspondence (joins when the accessor slice is present)
-    if hasattr(_acc, 'run'):
-        PARTS.append(('acc', _acc))
-except Exception:  # noqa
-    pass
+PARTS = [('total', C07_total), ('opt', C07_opt), ('out', C07_out)]
+from props import C07_acc
+PARTS.append(('acc', C07_acc))
 composite.make(globals(), PARTS)
